@@ -104,6 +104,7 @@ fn dispatch_replay(prop: &str, v: &serde_json::Value) -> bool {
         "E-bytes" => ebytes::replay(v),
         "H" => hist::replay(v),
         "H-sweep" => hist::replay_sweep(v),
+        "H-cli" => hist::replay_cli(v),
         "K" => crash::replay(v),
         "E-proj" => eproj::replay(v),
         e => {
